@@ -209,7 +209,7 @@ Proof.
       destruct (dict_get (in_name f) kv) as [fv|].
       * rewrite Hf. destruct (spec_coerce sch fuel (in_type f) _ fv); reflexivity.
       * destruct (in_default f) as [d|].
-        -- destruct (wrap_literal ws _ [] false d); reflexivity.
+        -- destruct (wrap_literal ws _ [] false d) as [dv|]; cbn [bind]; [destruct (is_undef dv)|]; reflexivity.
         -- destruct (is_non_null (in_type f)); reflexivity.
 Qed.
 
